@@ -10,6 +10,7 @@ import (
 	"fmt"
 	"math"
 	"net/http"
+	"strconv"
 	"strings"
 
 	"github.com/go-openapi/runtime/middleware"
@@ -25,15 +26,20 @@ type Param struct {
 	Flag bool   `json:"flag,omitempty"` // rendered as a bare name without "=" (extension parameters only)
 }
 
-// QV is a weight. Its numeric value is Milli/1000 (+ less than 1e-4 when Tail is set: the tail starts at the fifth digit or later); the text is built from the
-// other fields, so value and text cannot disagree.
+// QV is a weight. Its text is built from the fields: the three grid digits of Milli (trailing zeros dropped), then
+// - for Milli < 1000 - Gap zeros and the digits of Tail, then Pad trailing zeros. The exact decimal value is read off
+// the same digits by Weight, so value and text cannot disagree. The generators use tails only with 0 < Milli < 1000
+// and Gap >= 3 (the value stays within 1e-4 of the grid point: the tolerance of DESIGN.md section 6); saved canaries
+// also use Gap 0 ("0.999…9") and a tail on Milli 0 (a tiny non-zero weight) where the expected answer does not
+// depend on how such a value is rounded.
 type QV struct {
 	Name   string `json:"name,omitempty"`   // "q" (default) or "Q"
 	Milli  int    `json:"milli"`            // 0..1000
 	NoLead bool   `json:"nolead,omitempty"` // ".5" instead of "0.5"
 	Dot    bool   `json:"dot,omitempty"`    // keep the "." when no fractional digit follows: "1." / "0."
-	Pad    int    `json:"pad,omitempty"`    // zeros appended after the significant digits
-	Tail   string `json:"tail,omitempty"`   // further digits after at least three pad zeros (0 < Milli < 1000 only)
+	Gap    int    `json:"gap,omitempty"`    // zeros between the grid digits and Tail
+	Tail   string `json:"tail,omitempty"`   // further digits (Milli < 1000 only)
+	Pad    int    `json:"pad,omitempty"`    // trailing zeros: they do not change the value
 	Free   string `json:"free,omitempty"`   // metamorphic tier only: verbatim weight text, Milli is meaningless
 }
 
@@ -68,49 +74,68 @@ func digitsOnly(s string) string {
 	return b.String()
 }
 
-// Text renders the weight value.
-func (q QV) Text() string {
-	if q.Free != "" {
-		return q.Free
+func (q QV) milli() int {
+	switch {
+	case q.Milli < 0:
+		return 0
+	case q.Milli > 1000:
+		return 1000
 	}
-	m := q.Milli
-	if m < 0 {
-		m = 0
-	}
-	if m > 1000 {
-		m = 1000
-	}
-	pad := q.Pad
-	if pad < 0 {
-		pad = 0
-	}
-	tail := ""
-	if m > 0 && m < 1000 {
-		tail = digitsOnly(q.Tail)
-		if tail != "" && pad < 3 {
-			pad = 3
-		}
-	}
-	ip, frac := "0", ""
+	return q.Milli
+}
+
+// parts returns the integer digit and the fractional digits of the weight.
+func (q QV) parts() (ip, frac string) {
+	m := q.milli()
+	ip = "0"
 	if m == 1000 {
 		ip = "1"
 	} else {
 		frac = strings.TrimRight(fmt.Sprintf("%03d", m), "0")
 	}
-	frac += strings.Repeat("0", pad) + tail
+	if m < 1000 {
+		if tail := digitsOnly(q.Tail); tail != "" {
+			if frac == "" {
+				frac = "000"
+			}
+			if q.Gap > 0 {
+				frac += strings.Repeat("0", q.Gap)
+			}
+			frac += tail
+		}
+	}
+	if q.Pad > 0 {
+		frac += strings.Repeat("0", q.Pad)
+	}
 	if len(frac) > maxDigits {
 		frac = frac[:maxDigits]
 	}
+	return ip, frac
+}
+
+// Text renders the weight value.
+func (q QV) Text() string {
+	if q.Free != "" {
+		return q.Free
+	}
+	ip, frac := q.parts()
 	if frac == "" {
 		if q.Dot {
 			return ip + "."
 		}
 		return ip
 	}
-	if q.NoLead && m < 1000 {
+	if q.NoLead && ip == "0" {
 		ip = ""
 	}
 	return ip + "." + frac
+}
+
+// Weight is the exact decimal value of the weight in a form that compares as the number does under plain string
+// comparison: one integer digit, ".", the fractional digits without trailing zeros ("0." is zero, "1." is one).
+func (q QV) Weight() string {
+	ip, frac := q.parts()
+	return ip + "." + strings.TrimRight(frac, "0")
 }
 
 // Digits is the number of fractional digits of the rendered weight.
@@ -129,19 +154,33 @@ func (q QV) name() string {
 	return "q"
 }
 
-// Milli is the weight of the range in thousandths (1000 without q).
+// Milli is the grid point of the weight in thousandths (1000 without q).
 func (r Range) Milli() int {
 	if !r.HasQ {
 		return 1000
 	}
-	switch {
-	case r.Q.Milli < 0:
-		return 0
-	case r.Q.Milli > 1000:
-		return 1000
-	}
-	return r.Q.Milli
+	return r.Q.milli()
 }
+
+// Weight is the exact weight of the range (see QV.Weight); "1." without q.
+func (r Range) Weight() string {
+	if !r.HasQ {
+		return "1."
+	}
+	return r.Q.Weight()
+}
+
+// Float is the weight as the nearest float64 (strconv over the harness's own digit string, not over the header).
+func (r Range) Float() float64 {
+	f, err := strconv.ParseFloat(r.Weight()+"0", 64)
+	if err != nil {
+		panic("harness: weight " + r.Weight() + ": " + err.Error())
+	}
+	return f
+}
+
+// Zero reports a weight of exactly zero.
+func (r Range) Zero() bool { return r.Weight() == "0." }
 
 // Value is the media range (or content-coding) without parameters.
 func (r Range) Value() string {
@@ -254,7 +293,9 @@ func (r Range) matches(offer string) bool {
 
 // key is the rank of a (range, offer) pair: larger is better, compared lexicographically.
 type key struct {
-	q, spec, pos int // pos = -offer index
+	q    string // Range.Weight
+	spec int
+	pos  int // -offer index
 }
 
 func (a key) less(b key) bool {
@@ -279,10 +320,10 @@ func Expect(c Case) (want string, idx int) {
 	best, found := key{}, false
 	for i, o := range c.Offers {
 		for _, r := range c.Ranges {
-			if r.Milli() == 0 || !r.matches(o) {
+			if r.Zero() || !r.matches(o) {
 				continue
 			}
-			k := key{r.Milli(), r.specificity(), -i}
+			k := key{r.Weight(), r.specificity(), -i}
 			if !found || best.less(k) {
 				best, found = k, true
 			}
@@ -351,7 +392,7 @@ func Check(c Case) *kit.Violation {
 		return kit.Failf("PARSE Accept=%q: ParseAccept returned %d ranges %+v, the header holds %d", lines, len(specs), specs, len(c.Ranges))
 	}
 	for i, r := range c.Ranges {
-		wq := float64(r.Milli()) / 1000
+		wq := r.Float()
 		if specs[i].Value != r.Value() || math.IsNaN(specs[i].Q) || math.Abs(specs[i].Q-wq) > 2e-4 {
 			return kit.Failf("PARSE Accept=%q: range %d parsed as %+v, want {%s %v}", lines, i, specs[i], r.Value(), wq)
 		}
